@@ -49,8 +49,7 @@ def ref_parse(s):
                         p = M.parse_params(body)
                         if p.grey and grey is None:
                             grey = p.grey
-                        if p.has_empty and grey is None:
-                            grey = 'empty-token'
+                        # (an empty parameter means 0 = reset: parse_params already reads it that way)
                         M.apply_ops(p.ops, st)
                         info['sgr'] += 1
                         pending_sgr = True
@@ -65,8 +64,20 @@ def ref_parse(s):
                             info['pos_classes'].add('incomplete-tail')
                         i = k + 1
                         continue
-                    if grey is None:
-                        grey = 'private-or-intermediate-m-sequence'
+                    if ' ' in body and re.fullmatch('[0-9; ]*', body):
+                        if grey is None:
+                            grey = 'whitespace-padded-sgr-parameters'
+                        i = k + 1
+                        continue
+                    # private-parameter / intermediate-byte sequence ending in m (e.g. ESC[>4;2m): not a graphic
+                    # rendition - another control function, which stays in the text verbatim
+                    for ch in s[i:k + 1]:
+                        text.append(ch)
+                        states.append(M.freeze(st))
+                    info['kept_csi'] += 1
+                    if pending_sgr:
+                        info['sgr_then_text'] = True
+                    run = 0
                     i = k + 1
                     continue
                 # a complete non-SGR control sequence: stays in the text verbatim
